@@ -4,6 +4,9 @@ import (
 	"bytes"
 	"encoding/json"
 	"fmt"
+	"github.com/mosaicnetworks/babble/src/config"
+	"io"
+	"sort"
 
 	hg "github.com/mosaicnetworks/babble/src/hashgraph"
 )
@@ -127,6 +130,72 @@ func (c *Cluster) encodingChecksFinal(in *instance) {
 			return
 		}
 		c.stats.probe("c15-frame-json")
+	}
+	c.frameHandOverChecks(in)
+}
+
+// frameHandOverChecks: a frame keeps its hash when somebody resets from it and
+// then serves it on - whoever holds it, whatever spare capacity its slices have.
+// The three largest frames of the run are each sent through JSON, handed to a
+// fresh hashgraph's Reset, and hashed again: the object the receiver holds and
+// the frame its store serves afterwards.
+func (c *Cluster) frameHandOverChecks(in *instance) {
+	store := in.h.Store
+	type fr struct {
+		idx  int
+		size int
+	}
+	frames := []fr{}
+	for i := 0; i <= store.LastBlockIndex(); i++ {
+		b, err := store.GetBlock(i)
+		if err != nil {
+			continue
+		}
+		f, err := store.GetFrame(b.RoundReceived())
+		if err != nil {
+			continue
+		}
+		frames = append(frames, fr{i, len(f.Events)})
+	}
+	sort.SliceStable(frames, func(i, j int) bool { return frames[i].size > frames[j].size })
+	if len(frames) > 3 {
+		frames = frames[:3]
+	}
+	for k, x := range frames {
+		b, _ := store.GetBlock(x.idx)
+		f, _ := store.GetFrame(b.RoundReceived())
+		var b2 hg.Block
+		var f2 hg.Frame
+		cloneJSON(b, &b2)
+		cloneJSON(f, &f2)
+		if k%2 == 0 {
+			// a holder whose slice happens to have room to spare
+			ev := make([]*hg.FrameEvent, len(f2.Events), 4*len(f2.Events)+64)
+			copy(ev, f2.Events)
+			f2.Events = ev
+		}
+		want, _ := f.Hash()
+		conf := config.NewDefaultConfig()
+		conf.LogLevel = "panic"
+		conf.Logger().Logger.Out = io.Discard
+		h2 := hg.NewHashgraph(hg.NewInmemStore(10000), func(*hg.Block) error { return nil }, conf.Logger())
+		if err := h2.Reset(&b2, &f2); err != nil {
+			c.stats.probe("c15-frame-handover-reset-refused")
+			continue
+		}
+		got, _ := f2.Hash()
+		if !bytes.Equal(want, got) {
+			c.violate("C15", "frame-handover", "frame-changed-by-reset", "frame of block %d (%d events): the receiver's copy hashes differently after Hashgraph.Reset was given it (%s)", x.idx, x.size, frameDiff(&f2, f))
+			return
+		}
+		if sf, err := h2.Store.GetFrame(f.Round); err == nil {
+			got2, _ := sf.Hash()
+			if !bytes.Equal(want, got2) {
+				c.violate("C15", "frame-handover", "stored-frame-changed-by-reset", "frame of block %d (%d events): the frame served by a node that reset from it hashes differently (%s)", x.idx, x.size, frameDiff(sf, f))
+				return
+			}
+		}
+		c.stats.probe("c15-frame-handover")
 	}
 }
 
